@@ -91,3 +91,53 @@ def capture_country(country, scenario, nmonths, title="vp_capture"):
         import shutil
         shutil.rmtree(tmp, ignore_errors=True)
     return rounds, res
+
+
+def model_from_capture(c):
+    """a lpsym.model.Model-like view of a captured real round: LP variables by their real PuLP names, supplies as the concrete values of the run.
+    Lets lpsym.spec.audit() be asked of the LP a real run built (real coefficients, real horizon)."""
+    import numpy as np
+    from .model import FOODS, q
+    from .standin import E
+    consts, tc = c.consts, c.tc
+    N = c.N
+    X, bounds, cons, obj = dict_to_z3(c.first_stage)
+    low = {v["name"]: v["lowBound"] for v in c.first_stage["variables"]}
+
+    class M:
+        pass
+    M = M()
+    flags = {f: bool(consts["ADD_" + f]) for f in FOODS}
+    M.cfg = dict(N=N, opt=c.type, store=bool(consts["STORE_FOOD_BETWEEN_YEARS"]), retail=float(consts["STORED_FOOD_WASTE_RETAIL"]), pop=float(consts["POP"]),
+                 kcals_daily=float(consts["KCALS_MONTHLY"]) / 30.0, seaweed_kcals=float(consts["SEAWEED_KCALS"]), flags=flags, rotation=bool(consts["inputs"]["OG_USE_BETTER_ROTATION"]))
+    M.consts = consts
+    M.growth = [float(x) for x in tc["growth_rates_monthly"]]
+    prefixes = ["stored_food_start", "stored_food_end", "stored_food_to_humans", "stored_food_feed", "stored_food_biofuel", "methane_scp_to_humans", "methane_scp_feed", "methane_scp_biofuel",
+                "cellulosic_sugar_to_humans", "cellulosic_sugar_feed", "cellulosic_sugar_biofuel", "meat_start", "meat_end", "meat_eaten", "crops_food_storage", "crops_food_consumed",
+                "crops_food_to_humans", "crops_food_feed", "crops_food_biofuel", "seaweed_wet_on_farm", "seaweed_to_humans", "seaweed_feed", "seaweed_biofuel", "used_area"]
+
+    def camel(p):
+        special = {"methane_scp": "Methane_SCP"}
+        out = "_".join(w.capitalize() for w in p.split("_"))
+        return out.replace("Methane_Scp", "Methane_SCP")
+    V = {}
+    for p in prefixes:
+        names = ["%s_Month_%d_Variable" % (camel(p), m) for m in range(N)]
+        V[p] = [E(X[n]) if n in X else 0 for n in names]
+    V["consumed_kcals"] = [E(X["Humans_Fed_Kcals_%d_Variable" % m]) if ("Humans_Fed_Kcals_%d_Variable" % m) in X else 0 for m in range(N)]
+    V["objective_function"] = E(X["Objective_To_Optimize"])
+    M.V = V
+    f = lambda a: [float(x) for x in np.asarray(a, dtype=float)]
+    S = dict(sf0=float(np.asarray(consts["stored_food"].initial_available.kcals).reshape(-1)[0]) if flags["STORED_FOOD"] else 0.0,
+             slaughter=f(tc["each_month_meat_slaughtered"].kcals), crops=f(tc["outdoor_crops"].production.kcals), scp=f(tc["methane_scp"].kcals), cs=f(tc["cellulosic_sugar"].kcals),
+             milk=f(tc["milk_kcals"]), gh=f(tc["greenhouse_crops"].kcals), fish=f(tc["fish"].to_humans.kcals), feed=f(tc["feed"].kcals), biofuel=f(tc["biofuel"].kcals), area=f(tc["built_area"]))
+    S["max_feed"] = f(tc["max_feed_that_could_be_used"].kcals) if "max_feed_that_could_be_used" in tc else [0.0] * N
+    S["max_biofuel"] = f(tc["max_biofuel_that_could_be_used"].kcals) if "max_biofuel_that_could_be_used" in tc else [0.0] * N
+    # spec.audit works on z3 terms / numbers: wrap concrete supplies as exact rationals
+    M.S = {k: ([q(x) for x in v] if isinstance(v, list) else q(v)) for k, v in S.items()}
+    M.S_float = S
+    M.cons, M.bounds, M.X, M.objective = cons, bounds, X, obj
+    M.all_lower_bounded = all(low[n] is not None and low[n] >= 0 for n in low)
+    # the running total the code was given must be the cumulative slaughter (the audit is written from the slaughter series)
+    M.running_given = f(tc["max_consumed_culled_kcals_each_month"])
+    return M
